@@ -14,7 +14,7 @@ use serde_json::Value;
 
 pub const META: PropMeta = PropMeta {
     level: "exploration",
-    rule: "logical movies from the C03/C09/C18 generators (plus hand-built movies covering every box kind) x layout transformations resolved against the rendered box tree: insert a free/skip/unknown box at the top level (after ftyp) or at any child position of a container that iterates over its children (moov, trak, mdia, minf, stbl, dinf, udta, meta, ilst, ilst items, moof, traf, mvex, and inside avc1/mp4a before or after avcC/esds); swap order-free siblings (moov<->mdat at top level; children of moov, trak, mdia, minf, stbl, udta, ilst, traf, ISO-style meta, trafs of a moof when none uses the implicit base); 64-bit size header on any box; 1..15 spare bytes after the last field of fixed-layout/table boxes. Stage 1: every single transformation at every applicable site of each base movie (exhaustive); stage 2: random combinations of 2..6. Oracle: the variant opens to the same track ids, accessor values and metadata as the base, and every sample equals the builder's ground truth for the variant (same bytes/timing; sample_offset shifted by exactly the layout change). Non-trivial = at least one transformation inside a nested container (depth >= 2). Distinct = hash of (movie, transformations).",
+    rule: "logical movies from the C03/C09/C18 generators (plus hand-built movies covering every box kind) x layout transformations resolved against the rendered box tree: insert a free/skip/unknown box at the top level (after ftyp) or at any child position of a container that iterates over its children (moov, trak, mdia, minf, stbl, dinf, udta, meta, ilst, ilst items, moof, traf, mvex, and inside avc1/mp4a before or after avcC/esds); swap order-free siblings (moov<->mdat at top level; children of moov, trak, mdia, minf, stbl, udta, ilst, traf, ISO-style meta, trafs of a moof when none uses the implicit base and no track has two trafs in it (their order is the sample order)); 64-bit size header on any box; 1..15 spare bytes after the last field of fixed-layout/table boxes. Stage 1: every single transformation at every applicable site of each base movie (exhaustive); stage 2: random combinations of 2..6. Oracle: the variant opens to the same track ids, accessor values and metadata as the base, and every sample equals the builder's ground truth for the variant (same bytes/timing; sample_offset shifted by exactly the layout change). Non-trivial = at least one transformation inside a nested container (depth >= 2). Distinct = hash of (movie, transformations).",
     assumptions: &["excluded by the statement's wording: containers that do not iterate (stsd, edts, dref, hev1, vp09), QuickTime-style meta with something before hdlr, trailing bytes in payload-absorbing boxes (ftyp, hdlr, emsg, data, url)", "mvex children are not permuted (the library keeps a single trex: known finding KF-C09-single-trex)"],
 };
 
@@ -61,7 +61,7 @@ fn walk_sites(n: &Node, path: &mut Vec<usize>, in_ilst: bool, m: &Movie, out: &m
             out.push(Site::Insert { path: path.clone(), pos });
         }
     }
-    let swap_ok = is(&n.typ, &SWAP_PARENTS) || (n.typ == cc("meta") && matches!(n.parts.first(), Some(crate::refmp4::Part::Raw(_)))) || (n.typ == cc("moof") && m.frags.iter().all(|f| f.trafs.iter().all(|t| t.base != BaseMode::Neither)));
+    let swap_ok = is(&n.typ, &SWAP_PARENTS) || (n.typ == cc("meta") && matches!(n.parts.first(), Some(crate::refmp4::Part::Raw(_)))) || (n.typ == cc("moof") && m.frags.iter().all(|f| f.trafs.iter().all(|t| t.base != BaseMode::Neither) && { let mut seen = std::collections::BTreeSet::new(); f.trafs.iter().all(|t| seen.insert(t.track)) }));
     if swap_ok {
         for i in 0..kids.len() {
             for j in i + 1..kids.len() {
